@@ -369,6 +369,15 @@ fn inject(rng: &mut Rng, spec: &CmdSpec, intent: &LevelIntent, f: Fault) -> Opti
             for k in 0..li.items.len() {
                 if let Item::Opt { arg, toks } = &li.items[k] {
                     let a = &c.args[*arg];
+                    if matches!(a.vp, Some(Vp::Possible(_))) && !toks.is_empty() {
+                        // a word outside the enumerated set (also not a case variant of a member)
+                        if let Item::Opt { toks, .. } = &mut li.items[k] {
+                            toks[0] = if rng.coin() { "fas".into() } else { "nosuchq".into() };
+                        }
+                        let sty = Style::random(rng);
+                        let r = render(rng, spec, &it, &sty);
+                        return Some((r.argv, vec![K::InvalidValue]));
+                    }
                     if matches!(a.vp, Some(Vp::I64(_, _))) && !toks.is_empty() {
                         let bad = if rng.coin() { "99999999999" } else { "12x" };
                         if let Item::Opt { toks, .. } = &mut li.items[k] {
